@@ -1,6 +1,6 @@
 import Vflow.Model.Flow
 /-!
-# Model of `ipfix/decoder.go` (as it is after the F2 repair)
+# Model of `ipfix/decoder.go` (as it is after the F2 and the padding repairs)
 
 One small function per Go block.  Composite reads return `Except Err α × Rd` so that the reader
 position after a failure is available (the Go code uses it to compute how much of the set to skip).
@@ -112,10 +112,24 @@ structure Ctx where
 /-- `uint16(d.reader.ReadCount()-startCount)` -/
 def consumed16 (ctx : Ctx) (r : Rd) : Nat := (r.cnt - ctx.start) % 65536
 
+/-- one term of `minRecordLen`: a variable-length field takes at least its one-octet length prefix -/
+def specMin (s : Spec) : Nat := if s.len = 65535 then 1 else s.len
+
+/-- `TemplateRecord.minRecordLen` (padding repair): the shortest data record the template can describe
+(scope specifiers, then field specifiers), at least 1 -/
+def minRecLen (tr : Template) : Nat :=
+  let n := ((tr.scope ++ tr.fields).map specMin).sum
+  if n < 1 then 1 else n
+
+/-- `minLen` of `decodeSet`: what is left of a set and is shorter than this is padding — 5 octets
+(the former `> 4`) for template sets and the reserved ids, the template's minimum record length for
+data sets -/
+def minLeft (ctx : Ctx) : Nat := if ctx.setId > 255 then minRecLen ctx.tr else 5
+
 /-- the loop condition of `decodeSet` (without `err == nil`) -/
 def contCond (ctx : Ctx) (r : Rd) : Bool :=
-  decide (ctx.len > consumed16 ctx r) && decide (r.rem.length > 4) &&
-  decide ((ctx.len + 65536 - consumed16 ctx r) % 65536 > 4)
+  decide (ctx.len > consumed16 ctx r) && decide (r.rem.length ≥ minLeft ctx) &&
+  decide ((ctx.len + 65536 - consumed16 ctx r) % 65536 ≥ minLeft ctx)
 
 /-- the record loop of `decodeSet`.  Result: state, Go's `err` slot, and whether `decodeSet`
 returned directly (`true`: no skip of the rest of the set). -/
